@@ -561,7 +561,7 @@ def eval_fault_run(ctx, f, res):
             if f.get("fail") is None and not f.get("short"):
                 v("authz/authorised-change-refused:fault-free")
     if run["leftovers"]:
-        res.stats["obs/extra-files-left-in-directory"] += 1
+        res.stats["obs/extra-files-left-in-directory:%s" % ("after-crash" if crashing else "no-crash")] += 1
     return run
 
 
